@@ -55,9 +55,12 @@ class C02Monitor(Monitor):
         if cname == "CanonicalCriteria":
             return -dE / kT, "canonical", scale
         if cname == "HamiltonianCanonicalCriteria":
-            if not w.momenta_events:
+            # total energy at the start of the trajectory that produced the trial state: the kinetic energy the
+            # atoms carried when the (last, successful) integration began - which must be that of the freshly
+            # drawn momenta
+            if not w.integrate_events:
                 return None, "hamiltonian", scale
-            ke0 = w.momenta_events[-1]["ke"]
+            ke0 = w.integrate_events[-1]["ke"]
             ke1 = float(atoms.get_kinetic_energy())
             return -((E_new + ke1) - (self.E_pre + ke0)) / kT, "hamiltonian", scale + ke0 + ke1
         if cname in ("IsobaricCriteria", "IsotensionCriteria"):
@@ -168,12 +171,13 @@ class C02Monitor(Monitor):
 class C02(HistoryCampaign):
     prop = "C02"
     monitor_cls = C02Monitor
+    world_opts = {"record_integrator": True}
     flavor = {
         "drivers": ["Canonical", "HamiltonianCanonical", "Isobaric", "Isobaric", "Isotension", "Isotension",
                     "GrandCanonical", "GrandCanonical"],
         "calc_styles": ["caching", "stateless"],
         "scales": ["moderate", "extreme", "extreme"], "constraints": 0.1, "arrays": 0.2, "composites": 0.2, "extended": 0.1,
-        "p_force": [0.0, 0.0, 0.3], "p_veto": [0.0, 0.1], "preselect": 0.1, "steps_max": 10, "param_tape": 0.4,
+        "p_force": [0.0, 0.0, 0.3], "p_veto": [0.0, 0.1, 0.3], "preselect": 0.1, "steps_max": 10, "param_tape": 0.4,
         "exch_composites": True, "triclinic": 0.6,
     }
     rule = ("one evaluation = one generated deployment; EVERY acceptance decision taken in it is refereed against "
